@@ -239,7 +239,7 @@ func prepare(needRace, needPlain bool) *build {
 	b.corpus = fmt.Sprintf("repo=%s,repo-ir=%s,verif=%s", filepath.Join(tree, "asm", "testdata"), filepath.Join(tree, "ir", "testdata"), corpusCopy)
 	// A 145 KB module (longer than any plausible fixed-size read buffer) for the
 	// checks that can afford it.
-	if *flagProperty == "C12" || (*flagProperty == "C19" && tier == "thorough") || *flagReplay != "" {
+	if *flagProperty == "C12" || *flagProperty == "C19" || *flagReplay != "" {
 		b.corpus += ",large=" + largeCopy
 	}
 
